@@ -1286,3 +1286,39 @@ def seq_lens(x, _depth=0, _out=None):
     except Exception:
         pass
     return out
+
+
+# ---------------------------------------------------------------------------
+# structural rewriting (C18): replace sub-hints, rebuilding the parents
+# ---------------------------------------------------------------------------
+def rebuild(node, f):
+    """Copy of `node` where every sub-node n with f(n) not None is replaced by
+    f(n) (the replacement is not visited again: single, non-recursive
+    substitution)."""
+    r = f(node)
+    if r is not None:
+        return r
+    rb = lambda n: rebuild(n, f)
+    if isinstance(node, UnionH):
+        return UnionH([rb(m) for m in node.members])
+    if isinstance(node, TupleFixedH):
+        return TupleFixedH([rb(c) for c in node.children], node.typing_spelling)
+    if isinstance(node, SeqH):
+        return SeqH(node.origin, rb(node.child))
+    if isinstance(node, ReitH):
+        return ReitH(node.origin, rb(node.child))
+    if isinstance(node, QuasiH):
+        return QuasiH(node.origin, rb(node.child))
+    if isinstance(node, ShallowH):
+        return ShallowH(node.form, [rb(c) for c in node.children])
+    if isinstance(node, MapH):
+        if node.origin == 'Counter':
+            return MapH('Counter', rb(node.key))
+        return MapH(node.origin, rb(node.key), rb(node.value))
+    if isinstance(node, AnnotatedH):
+        return AnnotatedH(rb(node.child), node.metas, node.validators)
+    return node     # leaves (incl. named forms, literals, type[...]) are kept
+
+
+def subnodes(node):
+    return list(node.walk())
